@@ -64,6 +64,25 @@ def finite_iterator(ty):
     return any(re.match(bx, t) for bx in FINITE_BASES)
 
 
+def _unbox(b, ty):
+    """A `Box<dyn Iterator<..>>` driver: if every unsizing cast to that type in the body starts from a Box of a finite
+    iterator, answer one of those concrete types."""
+    if ty is None or not ty.startswith("std::boxed::Box<dyn std::iter::Iterator<"):
+        return ty
+    srcs = []
+    for bb, idx, place, rv, _ in b.assignments():
+        if rv["k"] == "cast" and "Unsize" in rv.get("cast", "") and rv.get("ty", "").startswith("std::boxed::Box<dyn std::iter::Iterator<"):
+            o = rv["op"]
+            t = (o.get("place") or {}).get("ty") or o.get("ty") or ""
+            m = re.match(r"std::boxed::Box<(.*)>$", t)
+            if m and m.group(1).startswith("dyn std::iter::Iterator<"):
+                continue     # re-coercion of an already boxed iterator
+            srcs.append(m.group(1) if m else None)
+    if srcs and all(x and finite_iterator(x) for x in srcs):
+        return srcs[0]
+    return ty
+
+
 def loop_driver(b, blocks, h=None):
     """Iterator::next calls that every cycle of the loop passes (they dominate every latch) and whose result switch
     has an edge leaving the loop."""
@@ -283,6 +302,7 @@ def progress(rep, ctx):
             drv = loop_driver(b, blocks, h)
             if drv:
                 tys = [iter_type(c) for c in drv]
+                tys = [_unbox(b, t) for t in tys]
                 fin = [t for t in tys if finite_iterator(t)]
                 if fin:
                     r.ok(key, "driven by %s" % fin[0][:90], where, nontrivial=False)
